@@ -589,3 +589,50 @@ def rule_pure(prop, repo):
     R.instance()
     R.check(F.raw.get("lint_unsafe_code") == "Forbid", "%s:pure:unsafe" % prop, "crate does not forbid unsafe code", sample={"forbid(unsafe_code)": True})
     return R.finish()
+
+
+def rule_zero_cover(prop, repo):
+    """is_zero of every tower level is the conjunction of is_zero over *all* coefficients; Fp::is_zero tests the limbs."""
+    F = repo.F
+    R = Rule("R-ZERO-COVER", "is_zero of Fq2/Fq4/Fq12 holds exactly when every coefficient's is_zero holds (each field covered once, conjunction)", floor=3, exhaustive=True)
+    for ty, n in (("crate::fields::fq2::Fq2", 2), ("crate::fields::fq4::Fq4", 2), ("crate::fields::fq12::Fq12", 3)):
+        cands = [b for b in F.fn_bodies() if b.rec.get("impl_self_adt") == ty and b.name == "is_zero" and (b.impl_trait or "").endswith("Zero")]
+        R.instance()
+        if len(cands) != 1:
+            R.fail_closed("%s:zero-cover:%s" % (prop, ty), "%s::is_zero not found uniquely" % ty)
+            continue
+        b = cands[0]
+        tb = repo.tb(b)
+        atoms = paths.collect_atoms(b, tb)
+        fields = {}
+        for a in atoms:
+            if a[0] == "bool" and a[1][0] == "call" and a[1][1].name == "is_zero":
+                x = strip(a[1][2][0])
+                if x[0] == "field" and strip(x[1]) in (("init", ("deref", 1)), ("param", 1)):
+                    fields.setdefault(x[2], a)
+        # the last test may be returned directly instead of branched on
+        rv = tb.return_value()
+        for x in alts(rv):
+            if x[0] == "call" and x[1].name == "is_zero":
+                y = strip(x[2][0])
+                if y[0] == "field" and strip(y[1]) in (("init", ("deref", 1)), ("param", 1)):
+                    fields.setdefault(y[2], ("ret", x))
+        covered = sorted(fields)
+        ok = covered == list(range(n))
+        if ok:
+            # conjunction: any branched-on coefficient being non-zero must lead to `false`
+            bad = []
+            batoms = [a for a in atoms]
+            for asg in paths.enumerate_assignments(batoms):
+                res = paths.simulate(b, tb, paths.Evaluator(asg))
+                v = paths.path_value(b, tb, res.blocks, 0)
+                falsy = any(not val for a, val in asg.items())
+                if falsy and not (v[0] == "const" and int(v[1].get("int", 1)) == 0) and not (v[0] == "call" and v[1].name == "is_zero" and all(val for val in asg.values())):
+                    # allowed: all tested so far true and the remaining coefficient's test returned directly
+                    tested_true = all(val for val in asg.values())
+                    if not tested_true:
+                        bad.append(asg)
+            ok = not bad
+        R.check(ok, "%s:zero-cover:%s" % (prop, ty), "%s::is_zero tests coefficients %s of %d (each must be tested, conjunctively)" % (ty, covered, n), b.file_line(), b.rec["path"],
+                sample={"type": ty.split("::")[-1], "coefficients_tested": covered})
+    return R.finish()
